@@ -595,6 +595,7 @@ func runNetProperty(t *testing.T, prop string, sigPrefixes []string, fams []netF
 			rep.Sample(2, map[string]any{"family": name, "steps": briefSteps(h.Descs)})
 		}
 	}
+	fams = append(fams, famMalformed())
 	for _, f := range fams {
 		h := newNetH(t, 3)
 		mesh(h)
